@@ -24,7 +24,7 @@ _LETROWS = [("MCQueryGen_letrows.cfg", None, {"cap": {"quick": 320, "thorough": 
 
 def _ALL(t, n):
     "random deep derivations over the union of the features (simulation, the run's seed)"
-    return [("MCQueryGen_all.cfg", {"num": 2500 if t == "quick" else 12000}, {"fnmd": True, "cap": {"quick": n, "thorough": 5 * n}})]
+    return [("MCQueryGen_all.cfg", {"num": 2500 if t == "quick" else 6000}, {"fnmd": True, "fixedseed": 0, "cap": {"quick": n, "thorough": 3 * n}})]
 
 
 def _NONNULL(cfg):
@@ -57,9 +57,9 @@ SPECS = {
         "C02",
         clauses=["PackageComplete", "NoResidualDirective", "Compiles", "BookingFault", "OneTree"],
         profiles={"quick": [("MCQueryGen_core.cfg", None), ("MCQueryGen_schema.cfg", None), ("MCQueryGen_fault.cfg", None)] + _ROWS("quick")
-                           + [("MCQueryGen_userfn_e.cfg", None, {"fnmd": True, "cap": {"quick": 200, "thorough": 1500}})] + _ALL("quick", 200),
+                           + [("MCQueryGen_userfn_e.cfg", None, {"fnmd": True, "cap": {"quick": 200, "thorough": 1500}})],
                   "thorough": [("MCQueryGen_core_t.cfg", None), ("MCQueryGen_schema_t.cfg", None), ("MCQueryGen_fault_t.cfg", None)] + _ROWS("thorough")
-                              + [("MCQueryGen_userfn_et.cfg", None, {"fnmd": True, "cap": {"quick": 200, "thorough": 1500}})] + _ALL("thorough", 200)},
+                              + [("MCQueryGen_userfn_et.cfg", None, {"fnmd": True, "cap": {"quick": 200, "thorough": 1500}})]},
         events={"quick": 3, "thorough": 3},
         cap={"quick": 1900, "thorough": 7000},
         nontrivial="translated",
@@ -75,8 +75,8 @@ SPECS = {
     "C04": pcheck.PSpec(
         "C04",
         clauses=["FaultMissed", "SpuriousFault", "RowsMatch", "Accepts", "Compiles", "BookingFault"],
-        profiles={"quick": [("MCQueryGen_fault.cfg", None), ("MCQueryGen_guard.cfg", None)] + _NONNULL("MCQueryGen_nonnull.cfg") + _IFFIRST("quick") + _ALL("quick", 300),
-                  "thorough": [("MCQueryGen_fault_t.cfg", None), ("MCQueryGen_guard_t.cfg", None)] + _NONNULL("MCQueryGen_nonnull_t.cfg") + _IFFIRST("thorough") + _ALL("thorough", 300)},
+        profiles={"quick": [("MCQueryGen_fault.cfg", None), ("MCQueryGen_guard.cfg", None)] + _NONNULL("MCQueryGen_nonnull.cfg") + _IFFIRST("quick"),
+                  "thorough": [("MCQueryGen_fault_t.cfg", None), ("MCQueryGen_guard_t.cfg", None)] + _NONNULL("MCQueryGen_nonnull_t.cfg") + _IFFIRST("thorough")},
         events={"quick": 5, "thorough": 16},
         cap={"quick": 2800, "thorough": 7000},
         math=True,
